@@ -4,6 +4,7 @@ package main
 // nodes, metadata). It shares no code with the library: own varint and length-prefix readers.
 
 import (
+	"bytes"
 	"encoding/binary"
 	"encoding/hex"
 	"errors"
@@ -268,4 +269,91 @@ func (s *Sys) auditRaw() string {
 		parts = append(parts, hex.EncodeToString(k)+"="+hex.EncodeToString(it.Value()))
 	}
 	return "raw[" + strings.Join(parts, ";") + "]"
+}
+
+// auditCache compares the two caches of the tree's node database with the database itself
+// (hook VerifNodeCache / VerifFastNodeCache, build tag verif). The invariant (NodeCache.v,
+// coherent): a cached node whose key can be read from the database - directly or through the
+// (v,1) -> (v,0) fall-back of GetNode - has exactly the stored bytes; a cached fast node whose
+// key is in the stored index has the stored value and version. Entries whose key is gone from
+// the database are counted (stale), not compared: the caches are never invalidated by deletions.
+// Result: ac(ok;c=[<hexkey>=<hexbytes>,..];d=[<hexkey>=<hexbytes>,..]) - the node-cache entries
+// (most recently used first, legacy nodes left out) and the database records they resolve to, for
+// the extracted checker NodeCache.coherentb - or ac(viol:<what>).
+func (s *Sys) auditCache() string {
+	if s.cstats == nil {
+		s.cstats = map[string]int{}
+	}
+	stats := s.cstats
+	if s.tree == nil {
+		return "ac(ok;c=[];d=[])"
+	}
+	var bad []string
+	var cparts, dparts []string
+	seen := map[string]bool{}
+	addDisk := func(k []byte) []byte {
+		val, err := s.db.Get(append([]byte{'s'}, k...))
+		if err != nil || val == nil {
+			return nil
+		}
+		if !seen[string(k)] {
+			seen[string(k)] = true
+			dparts = append(dparts, hex.EncodeToString(k)+"="+hex.EncodeToString(val))
+		}
+		return val
+	}
+	for _, c := range s.tree.VerifNodeCache() {
+		stats["x:cache.nodes"]++
+		if c.Legacy || len(c.Key) != 12 {
+			stats["x:cache.legacy"]++
+			continue
+		}
+		if c.Err != "" {
+			bad = append(bad, "unencodable:"+hex.EncodeToString(c.Key))
+			continue
+		}
+		cparts = append(cparts, hex.EncodeToString(c.Key)+"="+hex.EncodeToString(c.Bytes))
+		val := addDisk(c.Key)
+		if val == nil && binary.BigEndian.Uint32(c.Key[8:12]) == 1 {
+			k0 := append(append([]byte(nil), c.Key[:8]...), 0, 0, 0, 0)
+			val = addDisk(k0)
+		}
+		if val == nil {
+			stats["x:cache.stale"]++
+			continue
+		}
+		if len(val) == 0 || (val[0] == 's' && (len(val) == 13 || len(val) == 9)) {
+			// the key holds a root record (empty tree / reference to an earlier root, written by
+			// SaveRoot without touching the cache), not a node: GetNode is never asked for it
+			stats["x:cache.rootrec"]++
+			continue
+		}
+		if !bytes.Equal(val, c.Bytes) {
+			bad = append(bad, fmt.Sprintf("node:%d.%d", int64(binary.BigEndian.Uint64(c.Key[:8])), binary.BigEndian.Uint32(c.Key[8:12])))
+		}
+	}
+	for _, f := range s.tree.VerifFastNodeCache() {
+		stats["x:cache.fastnodes"]++
+		val, err := s.db.Get(append([]byte{'f'}, f.Key...))
+		if err != nil || val == nil {
+			stats["x:cache.faststale"]++
+			continue
+		}
+		ver, n, err := rdVarint(val)
+		if err != nil {
+			continue
+		}
+		v, _, err := rdBytes(val[n:])
+		if err != nil {
+			continue
+		}
+		if ver != f.Version || !bytes.Equal(v, f.Value) {
+			bad = append(bad, "fast:"+hex.EncodeToString(f.Key))
+		}
+	}
+	if len(bad) > 0 {
+		sort.Strings(bad)
+		return "ac(viol:" + strings.Join(bad, ",") + ")"
+	}
+	return "ac(ok;c=[" + strings.Join(cparts, ",") + "];d=[" + strings.Join(dparts, ",") + "])"
 }
